@@ -1418,7 +1418,7 @@ theorem c07_shape_TreeMarshal_MakeTree :
 
 theorem c07_shape_TreeMarshal_MakeTreeFromList :
     Shapes.tree_TreeMarshal_MakeTreeFromList =
-   ["ro.Search", "if:(idx<0)", "return:nil,xerrors.New(\"\")", "if:(ent.Public==nil)",
+   ["ro.searchByKey", "if:(idx<0)", "return:nil,xerrors.New(\"\")", "if:(ent.Public==nil)",
      "return:nil,xerrors.New(\"\")", "c.MakeTreeFromList", "if:(err!=nil)",
      "return:nil,xerrors.Errorf(\"\",err)", "return:tn,nil"] := rfl
 
